@@ -2,11 +2,11 @@ package c17
 
 import (
 	"bytes"
-	"reflect"
-	"os"
 	"crypto/sha256"
 	"encoding/hex"
 	"fmt"
+	"os"
+	"reflect"
 	"testing"
 
 	"github.com/parquet-go/parquet-go"
@@ -19,7 +19,12 @@ import (
 	"verifharness/typed"
 )
 
-func TestMain(m *testing.M) { kit.Main(m) }
+func TestMain(m *testing.M) {
+	// only the typed path is exercised here: let all-zero fixed-size values arrive as nil slices
+	// (it stores a zero placeholder taken from a pooled scratch buffer)
+	typed.NilForZeroFixed = true
+	kit.Main(m)
+}
 
 // Case: the final file (schema/type, rows, options, history) plus a prior
 // history executed on the same writer instance before Reset.
